@@ -80,6 +80,10 @@ func eatWhitespace(input *input) {
 	}
 }
 
+func isOperatorChar(c byte) bool {
+	return c == '<' || c == '>' || c == '='
+}
+
 // }}}
 
 // Dependency Parser {{{
@@ -166,7 +170,7 @@ func parsePossibility(input *input, relation *Relation) error {
 				return err
 			}
 			continue
-		case ' ', '(':
+		case ' ', '\t', '\n', '\r', '(', '[', '<':
 			err := parsePossibilityControllers(input, ret)
 			if err != nil {
 				return err
@@ -216,7 +220,7 @@ func parseMultiarch(input *input, possi *Possibility) error {
 	for {
 		peek := input.Peek()
 		switch peek {
-		case ',', '|', 0, ' ', '(', '[', '<':
+		case ',', '|', 0, ' ', '\t', '\n', '\r', '(', '[', '<':
 			arch, err := ParseArch(name)
 			if err != nil {
 				return err
@@ -302,7 +306,13 @@ func parsePossibilityOperator(input *input, version *VersionRelation) error {
 	leader := input.Next() /* may be 0 */
 
 	if leader == '=' {
-		/* Great, good enough. */
+		/* Great, good enough -- unless it runs on, as in "==" or "=>" */
+		if isOperatorChar(input.Peek()) {
+			return fmt.Errorf(
+				"Unknown Operator in Possibility Version modifier: =%c",
+				input.Peek(),
+			)
+		}
 		version.Operator = "="
 		return nil
 	}
@@ -318,6 +328,9 @@ func parsePossibilityOperator(input *input, version *VersionRelation) error {
 
 	switch operator {
 	case ">=", "<=", "<<", ">>":
+		if isOperatorChar(input.Peek()) {
+			break /* ">>=", "<<<" and friends */
+		}
 		version.Operator = operator
 		return nil
 	}
@@ -339,6 +352,12 @@ func parsePossibilityNumber(input *input, version *VersionRelation) error {
 			return errors.New("Oh no. Reached EOF before Number finished")
 		case ')':
 			return nil
+		case ' ', '\t', '\n', '\r':
+			eatWhitespace(input)
+			if input.Peek() != ')' {
+				return errors.New("Trailing garbage after the Number in a Version modifier")
+			}
+			continue
 		}
 		version.Number += string(input.Next())
 	}
@@ -350,6 +369,7 @@ func parsePossibilityArchs(input *input, possi *Possibility) error {
 	input.Next() /* Assert ch == '[' */
 
 	for {
+		eatWhitespace(input)
 		peek := input.Peek()
 		switch peek {
 		case 0:
@@ -391,7 +411,7 @@ func parsePossibilityArch(input *input, possi *Possibility) error {
 			return errors.New("Oh no. Reached EOF before Arch list finished")
 		case '!':
 			return errors.New("You can only negate whole blocks :(")
-		case ']', ' ': /* Let our parent deal with both of these */
+		case ']', ' ', '\t', '\n', '\r': /* Let our parent deal with these */
 			archObj, err := ParseArch(arch)
 			if err != nil {
 				return err
@@ -413,6 +433,7 @@ func parsePossibilityStageSet(input *input, possi *Possibility) error {
 
 	stageSet := StageSet{}
 	for {
+		eatWhitespace(input)
 		peek := input.Peek()
 		switch peek {
 		case 0:
@@ -446,7 +467,7 @@ func parsePossibilityStage(input *input, stageSet *StageSet) error {
 				return errors.New("Double-negation (!!) of a single Stage is not permitted :(")
 			}
 			stage.Not = !stage.Not
-		case '>', ' ': /* Let our parent deal with both of these */
+		case '>', ' ', '\t', '\n', '\r': /* Let our parent deal with these */
 			stageSet.Stages = append(stageSet.Stages, stage)
 			return nil
 		}
